@@ -117,7 +117,9 @@ func NewRouteProg(idx int, r *rand.Rand, c14 bool) *Program {
 		routeType{expr: g.idType, str: pkgPath + "." + g.idType},
 	)
 
-	var reg strings.Builder // body of the routes function
+	var reg strings.Builder  // body of the routes function
+	var reg2 strings.Builder // body of a second registration function, whose local constant shadows nothing but has the same NAME as the first one's
+	twoFuncs := g.pr(0.7)
 	var handlers strings.Builder
 	nRoutes := 6 + g.r.Intn(12)
 	usedInnerMethod, usedInnerFunc := false, false
@@ -142,8 +144,20 @@ func NewRouteProg(idx int, r *rand.Rand, c14 bool) *Program {
 		case 5:
 			pathExpr, rt.URL, rt.PathForm = `"host"+pkgRoute`, "host/const_url_from_package/", "literal-plus-const"
 		default:
-			s := fmt.Sprintf("/api/%s/route%d/:param", g.pick("v1", "admin", "public"), i)
+			s := fmt.Sprintf("/api/%s/route%d/:param", g.pick("v1", "admin", "public", "caf%C3%A9", "my%20file", "100%d", "%s"), i)
 			pathExpr, rt.URL, rt.PathForm = fmt.Sprintf("%q", s), s, "literal"
+		}
+		inSecond := twoFuncs && i >= nRoutes-2
+		if twoFuncs && i == 0 {
+			pathExpr, rt.URL, rt.PathForm = `localRoute+"/shared"`, "const_local_url/shared", "local-const-same-text-as-in-other-function"
+		}
+		if inSecond {
+			if i == nRoutes-1 {
+				pathExpr, rt.URL, rt.PathForm = `localRoute+"/shared"`, "admin_local_url/shared", "local-const-same-text-as-in-other-function"
+			} else {
+				su := fmt.Sprintf("/api/admin/second%d", i)
+				pathExpr, rt.URL, rt.PathForm = fmt.Sprintf("%q", su), su, "literal"
+			}
 		}
 		// the URL must be unique enough for readable reports
 		if rt.PathForm == "package-const" || rt.PathForm == "local-const" || rt.PathForm == "imported-const" || rt.PathForm == "literal-plus-const" {
@@ -197,6 +211,11 @@ func NewRouteProg(idx int, r *rand.Rand, c14 bool) *Program {
 			handlerExpr += ", logMiddleware" // registrations with middlewares are registrations too
 			rt.PathForm += "+middleware"
 		}
+		if inSecond {
+			fmt.Fprintf(&reg2, "\te.%s(%s, %s)\n", rt.Verb, pathExpr, handlerExpr)
+			g.truth.Routes = append(g.truth.Routes, rt)
+			continue
+		}
 		fmt.Fprintf(&reg, "\te.%s(%s, %s)\n", rt.Verb, pathExpr, handlerExpr)
 		if i == nRoutes/2 {
 			reg.WriteString("\tconst localLate = \"late\"\n\t_ = localLate\n")
@@ -214,7 +233,14 @@ func NewRouteProg(idx int, r *rand.Rand, c14 bool) *Program {
 	src.WriteString(handlers.String())
 	src.WriteString("func routes(e *echo.Echo, ct *controller, ct2 inner.Controller, oc otherCtrl) {\n\tconst localRoute = \"const_local_url\"\n")
 	src.WriteString(reg.String())
-	src.WriteString("}\n\nfunc main() { fmt.Println(\"routes\") }\n")
+	src.WriteString("}\n\n")
+	if twoFuncs {
+		src.WriteString("func adminRoutes(e *echo.Echo, ct *controller, ct2 inner.Controller, oc otherCtrl) {\n\tconst localRoute = \"admin_local_url\"\n")
+		src.WriteString(reg2.String())
+		src.WriteString("}\n\n")
+		p.Feature("route:two-registration-functions-same-local-const-name")
+	}
+	src.WriteString("func main() { fmt.Println(\"routes\") }\n")
 
 	innerSrc := "// Package inner holds handlers declared in another package.\npackage inner\n\nimport (\n\t\"fmt\"\n\n\t\"" + pkgPath + "/echo\"\n)\n\nconst Url = \"/const_url_from_inner_package/\"\n\ntype Controller struct{}\n\nfunc (Controller) HandleExt(c echo.Context) error {\n\tvar in []int64\n\tt, v := c.QueryParam(\"query1\"), c.QueryParam(\"query2\")\n\terr := c.Bind(&in)\n\t_ = fmt.Errorf(\"%s%s%s\", t, v, err)\n\tvar out map[string][]int\n\treturn c.JSON(200, out)\n}\n\nfunc TopLevel(c echo.Context) error {\n\treturn nil\n}\n"
 	p.RawFiles[id+"/routes.go"] = src.String()
@@ -270,7 +296,7 @@ func (g *routeGen) handlerBody(rt *RouteTruth, c string, c14, plain bool) string
 	} else if bodyAllowed && g.pr(0.35) {
 		// form data
 		if g.pr(0.6) {
-			n := fmt.Sprintf("value_%d", g.r.Intn(9))
+			n := fmt.Sprintf("%s_%d", g.pick("value", "value", "rate%"), g.r.Intn(9))
 			fmt.Fprintf(&sb, "fv := %s.FormValue(%q)\n", c, n)
 			rt.FormValues = append(rt.FormValues, n)
 			used = append(used, "fv")
@@ -289,7 +315,7 @@ func (g *routeGen) handlerBody(rt *RouteTruth, c string, c14, plain bool) string
 		}
 		if g.pr(0.5) || (len(rt.FormValues) == 0 && rt.FormFile == "") {
 			t := g.types[g.r.Intn(len(g.types))]
-			n := fmt.Sprintf("json-field-%d", g.r.Intn(9))
+			n := fmt.Sprintf("json-field%s-%d", g.pick("", "", "%v"), g.r.Intn(9))
 			fmt.Fprintf(&sb, "var jv %s\n_ = FormValueJSON(%s, %q, &jv)\n", t.expr, c, n)
 			rt.FormJSON = &RouteParam{Name: n, Type: t.str}
 		}
@@ -297,7 +323,7 @@ func (g *routeGen) handlerBody(rt *RouteTruth, c string, c14, plain bool) string
 	// query parameters
 	for i := 0; i < g.r.Intn(4); i++ {
 		nq++
-		name := fmt.Sprintf("%s%d", g.pick("id-", "param_", "q", "my-"), nq)
+		name := fmt.Sprintf("%s%d", g.pick("id-", "param_", "q", "my-", "pct%", "%s_"), nq)
 		v := fmt.Sprintf("qp%d", nq)
 		kind := g.r.Intn(4)
 		if plain && (kind == 1 || kind == 2) {
